@@ -39,6 +39,18 @@ class ParFront(Suite):
                 cases.append({"s": gen.UNIFYING, "D": [a, b]})
         for _ in range(150 if tier == "quick" else 3000):
             cases.append({"s": rng.choice([gen.UNIFYING, gen.PSEUDO, gen.INDUCED, gen.UNIFYING_HALF]), "D": [rng.choice(c4) for _ in range(rng.randint(2, 3))]})
+        # five to seven rankings of two to four elements, balanced votes and ties, under schemes that mix magnitudes: the sums that decide
+        # "robust or not" are equal as rationals - and stay equal in floating point only if nothing divides them by the number of rankings
+        for _ in range(120 if tier == "quick" else 1500):
+            n = rng.randint(2, 4)
+            D = [gen.random_ranking(rng, list(range(n)), 1.0, rng.choice([1.0, 0.6, 0.4])) for _ in range(rng.choice([5, 6, 6, 7, 7]))]
+            if rng.random() < 0.5:      # balance the first pair
+                D[0] = [[0], [1]] + [[e] for e in range(2, n)]
+                D[1] = [[1], [0]] + [[e] for e in range(2, n)]
+                D[2] = [[0, 1]] + [[e] for e in range(2, n)]
+            s = rng.choice([[[0.0, 1.0, 0.5, 0.0, 1.0, 0.0], [1.0, 1.0, 0.0, 0.5, 0.5, 0.0]], [[0.0, 1.0, 0.25, 0.0, 1.0, 0.0], [0.75, 0.75, 0.0, 0.5, 0.5, 0.0]],
+                            gen.GENERIC, gen.UNIFYING_HALF, [[0.0, 1.0, 0.75, 0.0, 1.0, 0.75], [0.25, 0.25, 0.0, 0.25, 0.25, 0.0]]])
+            cases.append({"s": s, "D": D})
         for _ in range(150 if tier == "quick" else 2000):
             nmax = rng.choice([3, 4, 5, 5]) if tier == "quick" else rng.choice([4, 5, 6, 6])
             cases.append({"s": opt_scheme(rng), "D": layered_dataset(rng, nmax, 4) if rng.random() < 0.7 else gen.random_dataset(rng, nmax, 4)})
